@@ -14,7 +14,7 @@ import (
 	"time"
 )
 
-const verifDir = "/verif"
+var verifDir = envOr("PVERIF_HOME", "/verif")
 
 var outDir = envOr("PVERIF_OUT", filepath.Join(verifDir, "evidence"))
 
